@@ -43,11 +43,10 @@ pub fn prefixes() -> Vec<Vec<Ev>> {
     // (2) epoch 2, registered for the second time, not yet able to sign
     let p2 = vec![Tick, Tick, Others(0b110), Epoch, Tick, Tick, Others(0b010)];
     // (3) epoch 3, ready to sign, the first beacon of the epoch signed, three pending
-    let mut p3 = vec![Tick, Tick, Others(0b110), Epoch, Tick, Tick, Others(0b110), Epoch, Tick, Tick, Tick];
+    let p3 = vec![Tick, Tick, Others(0b110), Epoch, Tick, Tick, Others(0b110), Epoch, Tick, Tick, Tick];
     // (4) epoch 4 reached, not yet noticed by the signer, which signed everything in epoch 3
     let mut p4 = p3.clone();
     p4.extend([Tick, Tick, Tick, Epoch]);
-    p3.shrink_to_fit();
     vec![p1, p2, p3, p4]
 }
 
@@ -167,6 +166,10 @@ pub fn run(ctx: &Ctx) -> ! {
         let o = replay(&scratch, &fixture, &nom, Tail::Always);
         rep.sample(json!({"history": nom, "outcome": o.result.outcome, "acknowledged_publications": o.published}));
     }
+    match crate::sys::reference_selfcheck(&scratch, &fixture) {
+        Ok(v) => rep.extra("reference_selfcheck", v),
+        Err(e) => rep.machinery_error(e),
+    }
     let ex = Explorer { threads: ctx.threads(), budget: None, run: &run };
 
     // (a) all histories up to a depth over the full alphabet, from the prepared states
@@ -199,7 +202,7 @@ pub fn run(ctx: &Ctx) -> ! {
         // two injected faults, from the first signing epoch on, around the four-epoch schedule
         use Ev::*;
         let nom4 = nominal(4, 0);
-        let dev2 = vec![Epoch, AggDown, AggUp, RoundClosed, RoundOpen, PublishFails, Restart];
+        let dev2 = vec![AggDown, AggUp, RoundClosed, RoundOpen, PublishFails, Restart];
         let from = nom4.iter().enumerate().filter(|(_, e)| **e == Epoch).nth(1).map(|x| x.0).unwrap();
         let edits2 = |h: &[Ev]| {
             let mut v = vec![];
